@@ -363,6 +363,14 @@ def evaluate(spec, case, outcome, props=None):
                 result.content = K.setof([x for x in rv[1] if Concrete._hashable(x)])
             else:
                 result = VSet(K.setof([x for x in rv[1] if Concrete._hashable(x)]))
+        elif rk == "dict:int" and rv[0] == "d" and all(v[0] in ("i", "b", "fi") for _, v in rv[1]):
+            from .values import VDict
+            arr = K.junk("iv", z3.ArraySort(c.Id, z3.IntSort()))
+            for kk, vv in rv[1]:
+                arr = z3.Store(arr, K.id[lkey(kk)], z3.IntVal(int(vv[1])))
+            result = VDict("dict", "int", K.setof([kk for kk, _ in rv[1]]), {"v": arr})
+        elif isinstance(rk, str) and rk.startswith("dict:"):
+            return None  # a result the harness cannot encode for this contract: case not evaluated
         else:
             result = VVal(K.id[lkey(rv)])
     if res and "net" in res:
